@@ -72,7 +72,10 @@ def run_convs(pid, convs, rep, keys=("wire", "cbs", "closed", "rets"), monitors=
         # identical scenarios that are repeated on purpose (a random select decides which branch runs): the same clause
         # failing in two or more independent instances of one class is already a reproduction
         cls = collections.Counter((json.dumps(scs[x[-1]]["steps"]), key_of(x[1])) for x in monitor_hits)
-        pre_h = set((x[-1], key_of(x[1])) for x in monitor_hits if cls[(json.dumps(scs[x[-1]]["steps"]), key_of(x[1]))] >= 2)
+        # (not for runs in which a scripted wait expired: the script lost its footing, typically under load)
+        cls = collections.Counter((json.dumps(scs[x[-1]]["steps"]), key_of(x[1])) for x in monitor_hits if not x[2].get("waits_expired"))
+        pre_h = set((x[-1], key_of(x[1])) for x in monitor_hits
+                    if not x[2].get("waits_expired") and cls[(json.dumps(scs[x[-1]]["steps"]), key_of(x[1]))] >= 2)
         need = [x[-1] for x in diffs] + [x[-1] for x in monitor_hits if (x[-1], key_of(x[1])) not in pre_h]
         suspects = sorted(set(need))[:24]
         again_d, again_h = set(), set(pre_h)
